@@ -71,7 +71,7 @@ pub async fn build_tree<TC: Configuration>(epochs: &[Vec<AzksElement>], par: Azk
 
 pub fn run(ctx: &Ctx) -> i32 {
     let mon = Mon::new();
-    let n = ctx.tier.pick(800, 4800);
+    let n = ctx.tier.pick(800, 16000);
     par_cases(ctx, &mon, "tree", n, |cc, rng, l| {
         let cfg = if rng.chance(1, 2) { Cfg::Wa } else { Cfg::Exp };
         let size = match cc.idx % 8 {
